@@ -59,6 +59,9 @@ def run(rep):
     dictionary_obligations(rep)
     region_rule_obligations(rep)
     region_language_obligations(rep, 'C14')
+    from props import region_lang
+    for o in region_lang.keyword_rule_boundaries('C14'):
+        rep.add(o)
     for o in rep.obls:
         if o.id.startswith('C05/'):
             o.id = 'C14/' + o.id[4:]
